@@ -329,7 +329,12 @@ impl<'a> CompilerState<'a> {
         let varname = px.as_str();
         let subscript = match p.next() {
             Some(pair) => {
+                let pos = pair.as_span().start();
                 let expr = self.parse_expr_ex(pair.into_inner())?;
+                if !expr.1.is_empty() {
+                    // The literal would be dropped here and its temporary never defined
+                    return Err(self.syntax_error("String literal in a subscript", pos));
+                }
                 Box::new(expr.0)
             }
             None => Box::new(Expr::Nothing),
